@@ -50,8 +50,30 @@ struct Tables {
 impl Tables {
     fn new() -> Self {
         // model channel i = i-th smallest real id: numeric order in the model = byte order here
-        let mut chans: Vec<ChannelId> = (0..NCH).map(|i| make_channel_id(&format!("c18:ch:{i}"))).collect();
+        // Ids are opaque 32-byte values (`TypeId(pub [u8; 32])`): besides label-derived ids the table holds ids that
+        // agree on long prefixes (31, 16 and 15 leading bytes), so an order decided on a prefix only is visible.
+        let mut base = make_channel_id("c18:ch:0").0;
+        base[0] = 0;
+        let mut chans: Vec<ChannelId> = Vec::new();
+        for i in 0..4u8 {
+            let mut b = base;
+            b[31] = i;
+            chans.push(warp_core::TypeId(b));
+        }
+        for i in 1..4u8 {
+            let mut b = base;
+            b[16] ^= i;
+            chans.push(warp_core::TypeId(b));
+            let mut b = base;
+            b[15] ^= i;
+            chans.push(warp_core::TypeId(b));
+        }
+        while chans.len() < NCH {
+            chans.push(make_channel_id(&format!("c18:ch:{}", chans.len())));
+        }
         chans.sort();
+        chans.dedup();
+        assert_eq!(chans.len(), NCH, "channel id table has duplicates");
         let inv = chans.iter().enumerate().map(|(i, c)| (*c, i)).collect();
         // model scope index -> hash, increasing in byte order, decided at different byte positions
         let mut s1 = [0u8; 32];
@@ -111,6 +133,8 @@ struct Outcome {
     digest: Hash,
     frames: Hash,
     v2: Hash,
+    /// the emissions digest of the same finalized channels presented reversed / rotated equals `digest`
+    present_ok: bool,
 }
 
 impl Outcome {
@@ -122,6 +146,7 @@ impl Outcome {
             "digest": hex::encode(self.digest),
             "frames": hex::encode(self.frames),
             "v2": hex::encode(self.v2),
+            "present_ok": self.present_ok,
         })
     }
     /// everything except the per-emit flags (those follow arrival order by definition)
@@ -181,6 +206,15 @@ fn run_bus(t: &Tables, pol: &[Option<ChannelPolicy>], seq: &[&Emission], scoped:
         notes.push("second finalize is not empty".into());
     }
     let digest = compute_emissions_digest(&report.channels);
+    // the digest is documented as canonical in the channels (sorted by id inside): presentation order must not matter
+    let mut present_ok = true;
+    if report.channels.len() >= 2 {
+        let mut rev = report.channels.clone();
+        rev.reverse();
+        let mut rot = report.channels.clone();
+        rot.rotate_left(1);
+        present_ok = compute_emissions_digest(&rev) == digest && compute_emissions_digest(&rot) == digest;
+    }
     let frames: Vec<MaterializationFrame> =
         report.channels.iter().map(|c| MaterializationFrame::new(c.channel, c.data.clone())).collect();
     let frames_h: Hash = blake3::hash(&encode_frames(&frames)).into();
@@ -204,6 +238,7 @@ fn run_bus(t: &Tables, pol: &[Option<ChannelPolicy>], seq: &[&Emission], scoped:
         digest,
         frames: frames_h,
         v2,
+        present_ok,
     }
 }
 
